@@ -72,8 +72,13 @@ except ImportError:
 # Use the built-in _sha256 extension instead of hashlib to avoid a dependency on
 # OpenSSL, which is incompatible with the GPL.
 try:
-    import _sha256    # type: ignore
-    new_sha256 = _sha256.sha256
+    try:
+        import _sha256    # type: ignore
+        new_sha256 = _sha256.sha256
+    except ImportError:
+        # Python >= 3.12 merged the built-in SHA-2 implementations into _sha2
+        import _sha2    # type: ignore
+        new_sha256 = _sha2.sha256
 except ImportError:
     def new_sha256(*args):    # pylint: disable=unused-argument
         # type: (bytes) -> str
